@@ -29,9 +29,9 @@ FILES = ["orquesta/conducting.py", "orquesta/machines.py", "orquesta/statuses.py
 ANCHORS = {
     "orquesta/conducting.py": ["C01", "C02", "C03", "C04", "C05", "C06", "C07", "C08", "C09", "C10", "C11", "C12",
                                "C13", "C15", "C16", "C17", "C18", "C19"],
-    "orquesta/machines.py": ["C02", "C03", "C04", "C07", "C09", "C10", "C12", "C13", "C08"],
-    "orquesta/statuses.py": ["C02", "C03", "C04", "C08", "C09", "C10", "C12", "C13"],
-    "orquesta/events.py": ["C02", "C03", "C04", "C09", "C10", "C12", "C13"],
+    "orquesta/machines.py": ["C01", "C02", "C03", "C04", "C07", "C08", "C09", "C10", "C12", "C13", "C15", "C17", "C18"],
+    "orquesta/statuses.py": ["C01", "C02", "C03", "C04", "C07", "C08", "C09", "C10", "C12", "C13", "C15", "C17", "C18"],
+    "orquesta/events.py": ["C01", "C02", "C03", "C04", "C07", "C08", "C09", "C10", "C12", "C13", "C15", "C17", "C18"],
     "orquesta/graphing.py": ["C01", "C05", "C07", "C13", "C14", "C19"],
     "orquesta/composers/native.py": ["C07", "C13", "C14", "C19", "C20"],
     "orquesta/specs/native/v1/models.py": ["C01", "C06", "C11", "C12", "C14", "C15", "C16", "C19", "C20"],
